@@ -45,13 +45,16 @@ def run(tier, seed, replay=None):
     ctl = []
     for t, v in zip(trs, vs):
         e0 = t["events"][0]
-        if v["ok"] and e0["e"] == "ret" and len(e0["comps"]) >= 3 and any(len(c) >= 2 for c in e0["comps"]) and t["m"] == t["n"]:
+        ci = {x: k for k, c in enumerate(e0.get("comps", [])) for x in c} if e0["e"] == "ret" else {}
+        cross = any(a in ci and b in ci and ci[a] != ci[b] for a, b in t["edges"])      # reversing the list must break "sinks first"
+        if v["ok"] and e0["e"] == "ret" and len(e0["comps"]) >= 3 and any(len(c) >= 2 for c in e0["comps"]) and t["m"] == t["n"] and cross:
             c = copy.deepcopy(t); c["events"][0]["comps"].reverse(); ctl.append((c, "Scc."))
             c = copy.deepcopy(t); big = max(c["events"][0]["comps"], key=len); x = big.pop(); c["events"][0]["comps"].append([x]); ctl.append((c, "Scc.component_is_not_a_mutual_reachability_class"))
             break
     for t, v in zip(trs, vs):
         e1 = t["events"][1]
-        if v["ok"] and e1["e"] == "ret" and e1["status"] == "OPTIMAL" and len(e1["order"]) >= 3 and len(t["edges"]) >= 2:
+        inner = e1["e"] == "ret" and any(a != b and a in e1.get("order", []) and b in e1.get("order", []) for a, b in t["edges"])   # an edge the reversed order breaks
+        if v["ok"] and e1["e"] == "ret" and e1["status"] == "OPTIMAL" and len(e1["order"]) >= 3 and inner:
             c = copy.deepcopy(t); c["events"][1]["order"].reverse(); ctl.append((c, "Topo.not_a_topological_order"))
             break
     if len(ctl) < 3:
